@@ -321,6 +321,9 @@ class HyperWorld(World):
                 E, KE, W = self._energy()
                 if not np.isfinite(E):
                     raise Violation("energy-not-finite", "KE + W is NaN/Inf after a converged step")
+                if self.conserving and abs(E - self.E0) > 1e-5 * self.Escale and self.cfg["stress"] == "quadrature" and self._adaptive_rule_at_its_cap():
+                    self.conserving = False
+                    ctx.probe("adaptive_rule_hit_its_cap")
                 if self.conserving and abs(E - self.E0) > 1e-5 * self.Escale:
                     raise Violation("energy-not-conserved", f"[{self.cfg['params']['law']}, {self.cfg['stress']}, dt {self.dt}, {'clamped' if self.cfg['clamped'] else 'free'}] KE + W drifted from {self.E0:.10e} to {E:.10e} after {self.steps} steps (scale {self.Escale:.3e})")
                 ctx.checked()
@@ -329,6 +332,23 @@ class HyperWorld(World):
         raise ValueError(name)
 
     TRIAL_ATTR = "_Simu__current_newton_raphson_solution"
+
+    def _adaptive_rule_at_its_cap(self) -> bool:
+        """Did the adaptive strain-path rule reach its documented cap (33 points) in the last assembly?  Read from the
+        private diagnostic when it is there, otherwise through the public route: a saved iteration holds 'nPts_e'."""
+        sim = self.sim
+        npts = getattr(sim, "_HyperElastic__nPts_e", None)
+        if npts is None:
+            try:
+                with self.ctx.sut():
+                    sim.Save_Iter()
+                    npts = sim.Get_results(-1).get("nPts_e")
+                self.saved.append(None)
+            except SutError:
+                return True  # cannot be observed: no verdict on this run's energy
+            if npts is None:
+                return True
+        return bool(np.size(npts)) and int(np.max(npts)) >= 33
 
     def _tangent_check(self, op):
         """The system a Newton iteration solves, A = coefK K + coefC C + coefM M with right-hand side -R(u), at a trial
